@@ -321,4 +321,128 @@ Theorem run_no_failure ops : Forall ok_new ops ->
   forall x, In x (run cmp limit ops) -> x <> RPanic /\ x <> RFuel /\ x <> RBadOracle.
 Proof. intros F x. rewrite run_refines. apply spec_no_failure. exact F. Qed.
 
+(* ------------------------------------------------------------------ iteration is strictly ascending *)
+Lemma sorted_filter (p : T -> bool) l : sorted l -> sorted (filter p l).
+Proof.
+  induction l as [|x r IH]; cbn [filter StreeSpec.sorted]; [auto|].
+  intros [H1 H2]. destruct (p x); cbn [StreeSpec.sorted]; [|auto]. split; [|auto].
+  intros y Hy. apply filter_In in Hy. apply H1. apply Hy.
+Qed.
+
+Lemma in_firstn (y : T) n : forall l, In y (firstn n l) -> In y l.
+Proof.
+  induction n as [|n IH]; intros [|x r]; cbn [firstn In]; auto; try tauto. intros [E|H]; [left; exact E|right; auto].
+Qed.
+
+Lemma sorted_firstn n : forall l, sorted l -> sorted (firstn n l).
+Proof.
+  induction n as [|n IH]; intros [|x r]; cbn [firstn StreeSpec.sorted]; auto.
+  intros [H1 H2]. split; [|auto]. intros y Hy. apply H1. eapply in_firstn. exact Hy.
+Qed.
+
+Lemma sorted_upto stop l : sorted l -> sorted (s_upto stop l).
+Proof. destruct stop; cbn [s_upto]; [apply sorted_firstn|auto]. Qed.
+
+Lemma Forall_set_nth (P : list T -> Prop) a : forall i s, Forall P s -> P a -> Forall P (set_nth i a s).
+Proof.
+  intros i s H Pa. revert i. induction H as [|x s Hx Hs IH]; intros [|i]; cbn [set_nth]; constructor; auto.
+Qed.
+
+Lemma Forall_nth (P : list T -> Prop) s i l : Forall P s -> nth_error s i = Some l -> P l.
+Proof. intros H N. rewrite Forall_forall in H. apply H. eapply nth_error_In. exact N. Qed.
+
+Lemma spec_step_sorted s' o : Forall sorted s' ->
+  Forall sorted (fst (spec_step cmp s' o))
+  /\ forall l, snd (spec_step cmp s' o) = RList l -> sorted l.
+Proof.
+  intros H.
+  destruct o as [b keys picks|i|i k|i k|i k|i|i|i|i k|i|i|i stop|i k stop]; cbn [spec_step];
+    unfold s_mut, s_obs.
+  - destruct ((b <? 0) || (1000 <? b)); [split; [exact H|discriminate]|].
+    destruct keys as [|k0 keys'].
+    + split; [|discriminate]. apply Forall_app. split; [exact H|]. constructor; [exact I|constructor].
+    + destruct (s_new cmp (k0 :: keys') picks) as [kept|] eqn:N; [|split; [exact H|discriminate]].
+      split; [|discriminate]. apply Forall_app. split; [exact H|].
+      constructor; [apply (s_new_choice _ _ _ N)|constructor].
+  - destruct (nth_error s' i) as [l|] eqn:N; [|split; [exact H|discriminate]].
+    split; [|discriminate]. apply Forall_app. split; [exact H|].
+    constructor; [eapply Forall_nth; eassumption|constructor].
+  - destruct (nth_error s' i) as [l|] eqn:N; [|split; [exact H|discriminate]].
+    pose proof (s_insert_sorted T cmp HP false k l (Forall_nth _ _ _ _ H N)) as S'.
+    destruct (s_insert cmp false k l) as [l' b]. split; [|discriminate]. apply Forall_set_nth; assumption.
+  - destruct (nth_error s' i) as [l|] eqn:N; [|split; [exact H|discriminate]].
+    pose proof (s_insert_sorted T cmp HP true k l (Forall_nth _ _ _ _ H N)) as S'.
+    destruct (s_insert cmp true k l) as [l' b]. split; [|discriminate]. apply Forall_set_nth; assumption.
+  - destruct (nth_error s' i) as [l|] eqn:N; [|split; [exact H|discriminate]].
+    pose proof (s_remove_sorted T cmp k l (Forall_nth _ _ _ _ H N)) as S'.
+    destruct (s_remove cmp k l) as [l' b]. split; [|discriminate]. apply Forall_set_nth; assumption.
+  - destruct (nth_error s' i) as [l|] eqn:N; [|split; [exact H|discriminate]].
+    split; [|discriminate]. apply Forall_set_nth; [exact H|exact I].
+  - destruct (nth_error s' i); split; try exact H; discriminate.
+  - destruct (nth_error s' i); split; try exact H; discriminate.
+  - destruct (nth_error s' i); split; try exact H; discriminate.
+  - destruct (nth_error s' i); split; try exact H; discriminate.
+  - destruct (nth_error s' i); split; try exact H; discriminate.
+  - destruct (nth_error s' i) as [l|] eqn:N; [|split; [exact H|discriminate]].
+    split; [exact H|]. cbn [snd]. intros l0 E. injection E as <-.
+    apply sorted_upto. eapply Forall_nth; eassumption.
+  - destruct (nth_error s' i) as [l|] eqn:N; [|split; [exact H|discriminate]].
+    split; [exact H|]. cbn [snd]. intros l0 E. injection E as <-.
+    apply sorted_upto. apply sorted_filter. eapply Forall_nth; eassumption.
+Qed.
+
+Lemma spec_run_sorted ops : forall s', Forall sorted s' ->
+  forall l, In (RList l) (spec_run_from cmp s' ops) -> sorted l.
+Proof.
+  induction ops as [|o ops IH]; intros s' H l Hl; [destruct Hl|].
+  cbn [spec_run_from] in Hl. destruct (spec_step_sorted s' o H) as [H1 H2].
+  destruct (spec_step cmp s' o) as [s1' x]. cbn [fst snd] in *.
+  destruct Hl as [E|Hl]; [apply H2; exact E|eapply IH; eassumption].
+Qed.
+
+(* every sequence any Inorder / InorderAfter call of any history delivers is strictly ascending *)
+Theorem run_iteration_ascending ops l : In (RList l) (run cmp limit ops) -> sorted l.
+Proof. rewrite run_refines. apply spec_run_sorted. constructor. Qed.
+
+(* ------------------------------------------------------------------ other trees are left alone *)
+Definition target (o : op T) : option nat :=
+  match o with
+  | OAdd i _ | OReplace i _ | ORemove i _ | OClear i => Some i
+  | _ => None
+  end.
+
+Lemma nth_set_nth_other (A : Type) (a : A) : forall i j (s : list A), j <> i -> nth_error (set_nth i a s) j = nth_error s j.
+Proof.
+  induction i as [|i IH]; intros [|j] [|x s] N; cbn [set_nth nth_error]; try reflexivity; try congruence.
+  apply IH. congruence.
+Qed.
+
+Lemma nth_app_old (A : Type) (s : list A) (a : A) j : (j < length s)%nat -> nth_error (s ++ [a]) j = nth_error s j.
+Proof. intros H. apply nth_error_app1. exact H. Qed.
+
+(* In the model: an operation changes at most the tree it names; New and Clone only append. *)
+Theorem step_frame (s : state T) o j : (j < length s)%nat -> target o <> Some j ->
+  nth_error (fst (step cmp limit s o)) j = nth_error s j.
+Proof.
+  intros Hj Ht.
+  destruct o as [b keys picks|i|i k|i k|i k|i|i|i|i k|i|i|i stop|i k stop]; cbn [step target] in *;
+    unfold step_mut, step_obs.
+  - destruct (New cmp b keys picks); cbn [fst]; try reflexivity. apply nth_app_old. exact Hj.
+  - destruct (nth_error s i); cbn [fst]; [apply nth_app_old; exact Hj|reflexivity].
+  - destruct (nth_error s i) as [t|]; [|reflexivity]. destruct (Add cmp limit t k) as [[t' b]| | |]; cbn [fst]; try reflexivity.
+    apply nth_set_nth_other. congruence.
+  - destruct (nth_error s i) as [t|]; [|reflexivity]. destruct (Replace cmp limit t k) as [[t' b]| | |]; cbn [fst]; try reflexivity.
+    apply nth_set_nth_other. congruence.
+  - destruct (nth_error s i) as [t|]; [|reflexivity]. destruct (Remove cmp t k) as [[t' b]| | |]; cbn [fst]; try reflexivity.
+    apply nth_set_nth_other. congruence.
+  - destruct (nth_error s i) as [t|]; [|reflexivity]. cbn [fst]. apply nth_set_nth_other. congruence.
+  - destruct (nth_error s i); reflexivity.
+  - destruct (nth_error s i); reflexivity.
+  - destruct (nth_error s i); reflexivity.
+  - destruct (nth_error s i); reflexivity.
+  - destruct (nth_error s i); reflexivity.
+  - destruct (nth_error s i); reflexivity.
+  - destruct (nth_error s i); reflexivity.
+Qed.
+
 End Hist.
